@@ -189,6 +189,7 @@ func runPlan(cd *common.Codec, f model.Format, sc *Scenario, data []byte, refs [
 				return &simkit.Violation{Kind: "no-progress", Site: site, Detail: fmt.Sprintf("Next call %d used %d reads for at most %d bytes", call+1, used, vlen), Scenario: sc}
 			}
 		}
+		x.ObserveStr(simkit.EventsString(t.Events, 0))
 		switch {
 		case call < expectOK:
 			if err != nil {
